@@ -61,6 +61,10 @@ class TIter(TSeq):
         return "Iter<%r>" % (self.elem,)
 
 
+class TEnum(TTuple):
+    """items of `.enumerate()`: Rust yields (index, item), `List.zipIdx` yields (item, index)"""
+
+
 class TRec(TTuple):
     """a struct of the spec: a tuple in field order"""
 
@@ -795,6 +799,9 @@ class FnTranslatorX(rs.FnTranslator):
             if lt != rt or not isinstance(lt, TInt) or lt.signed:
                 self.err("`%s` on %r and %r" % (path, lt, rt), e)
             return "Nat.%s %s %s" % (e.path[-1], atom(l), atom(r)), lt
+        if path in self.spec.get("zero_ctors", []) and not e.args and e.path[0] in self.structs:
+            t = self.ty_of_text(e.path[0])
+            return zero_of(t), t
         if len(e.path) == 2 and e.path[1] == "new" and e.path[0] in OPAQUE and not e.args:
             return OPAQUE[e.path[0]]["new"], TOpaque(e.path[0])
         if path in ("VecDeque::new",) and not e.args:
@@ -883,6 +890,8 @@ class FnTranslatorX(rs.FnTranslator):
             return self.abs_call("%s.%s" % (recv.name, nm), e, code)
         if nm in ("into_iter", "clone") and not e.args and isinstance(self.peek_type(e.recv), TAbs):
             return self.expr(e.recv, code, expected)
+        if nm == "into" and not e.args and isinstance(self.peek_type(e.recv), TRec):
+            return self.expr(e.recv, code, expected)          # `I: Into<Interval<N>>` read at `Interval<N>` itself
         if nm == "last" and not e.args:
             r, t = self.expr(e.recv, code)
             if not isinstance(t, TSeq):
@@ -1405,7 +1414,7 @@ class FnTranslatorX(rs.FnTranslator):
             l, t, br = self.loop_source(it.recv, code, s)
             if br is not None:
                 self.err("`.by_ref().enumerate()`", it)
-            return "%s.zipIdx" % atom(l), TTuple([TInt("usize"), t]), None
+            return "%s.zipIdx" % atom(l), TEnum([TInt("usize"), t]), None
         if it.kind == "mcall" and not it.args and it.name == "rev":
             l, t, br = self.loop_source(it.recv, code, s)
             if br is not None:
@@ -1499,8 +1508,8 @@ class FnTranslatorX(rs.FnTranslator):
         k = self.n_for
         name = "%s_for%d" % (self.lean_fn, k)
         lst, elem_t, byref = self.loop_source(s.iter, code, s)
-        if isinstance(elem_t, TTuple) and lst.endswith(".zipIdx"):
-            pass
+        if isinstance(elem_t, TEnum) and not (s.pat.kind == "ptuple" and len(s.pat.items) == 2):
+            self.err("pattern of an `.enumerate()` loop must be `(i, x)`", s.pat)
         has_ret = "return" in js
         assigned = self.assigned(N("for", s.pos, pat=s.pat, iter=s.iter, body=s.body))
         if byref is not None:
@@ -1522,7 +1531,7 @@ class FnTranslatorX(rs.FnTranslator):
         # `enumerate()` items are (index, item) in Rust and (item, index) in `zipIdx`
         pat = s.pat
         pt = elem_t
-        if lst.endswith(".zipIdx") and pat.kind == "ptuple" and len(pat.items) == 2:
+        if isinstance(elem_t, TEnum) and pat.kind == "ptuple" and len(pat.items) == 2:
             pat = N("ptuple", pat.pos, items=[pat.items[1], pat.items[0]])
             pt = TTuple([elem_t.items[1], elem_t.items[0]])
         lpat = self.lean_pat(pat, pt, s)
@@ -1559,6 +1568,8 @@ class FnTranslatorX(rs.FnTranslator):
             parts.append("List " + paren_ty(elem_t.lean()))
         parts.append(paren_ty(st_ty) if len(parts) else st_ty)
         res_ty = " × ".join(parts)
+        if isinstance(elem_t, TEnum):
+            elem_t = TTuple([elem_t.items[1], elem_t.items[0]])
         lines = ["/-- `for %s` (line %d): recursive on the remaining items; `break` / `return` end the recursion -/"
                  % (self.src_text(s, None)[4:].strip(), self.src.line_of(s.pos)),
                  "%s : List %s → %s → Res %s" % (self.helper_header(name, caps), paren_ty(elem_t.lean()), paren_ty(st_ty),
@@ -1676,6 +1687,16 @@ class FnTranslatorX(rs.FnTranslator):
                 return tys
             if st.kind in ("matchs",) and idx == len(stmts) - 1 and tail_node is None:
                 return self.finish(st.e, code, st)
+            if st.kind in ("ifs", "tail") and st.e.kind == "if" and st.e.els is None and self.is_panic_block(st.e.then):
+                c, ct = self.expr(st.e.cond, code, TBool())
+                if not isinstance(ct, TBool):
+                    self.err("condition of type %r" % (ct,), st.e.cond)
+                th = Code()
+                th.final = ("call", "Res.panic")
+                el = Code()
+                tys = self.seq(stmts[idx + 1:], tail_node, el, where)
+                code.final = ("if", c, th, el)
+                return tys
             if st.kind in ("for", "while", "return") or (st.kind == "ifs" and st.e.els is None and st.e.then.tail is None
                                                           and st.e.then.stmts and st.e.then.stmts[-1].kind == "return"):
                 break
@@ -1684,6 +1705,10 @@ class FnTranslatorX(rs.FnTranslator):
             return self.finish(tail_node, code, where)
         # hand the rest to the base class (early `return` at function level, plain loops) — it calls back into `seq`
         return self.seq_base(stmts[idx:], tail_node, code, where)
+
+    def is_panic_block(self, b):
+        xs = list(b.stmts) + ([N("exprs", b.tail.pos, e=b.tail)] if b.tail is not None else [])
+        return len(xs) == 1 and xs[0].kind == "exprs" and xs[0].e.kind == "macro" and xs[0].e.name in ("panic", "unreachable")
 
     def seq_base(self, stmts, tail_node, code, where):
         st = stmts[0]
